@@ -62,6 +62,10 @@ type variant struct {
 	// the variant must produce the same output as the original when same is true;
 	// otherwise it is compared with `against`
 	against *fileSet
+	// signature of the recorded finding that explains a difference, if any
+	knownSig string
+	// the value form is outside what the model of Show covers (showf_model): not sent to the model
+	noModel bool
 }
 
 // variants builds the documented expansions that apply to fs.
@@ -80,7 +84,15 @@ func variants(c *Ctx, fs *fileSet) []variant {
 			} else {
 				m.kind = 'S'
 			}
-			out = append(out, variant{law: "render_equals_show_of_value", fs: v, against: fs})
+			// the fast path of {{ render }} has no format test (recorded finding render-fastpath-format):
+			// for a file whose format is not the one of the context the two forms differ
+			pf, ctx := fs.file(n.e.n).fmt, int(n.c)
+			known := ""
+			if !(pf == ctx || (pf == fMarkdown && ctx == fHTML)) {
+				known = "render-fastpath-format"
+			}
+			out = append(out, variant{law: "render_equals_show_of_value", fs: v, against: fs, knownSig: known,
+				noModel: !(pf == ctx || ctx == fHTML || ctx == fText)})
 		}
 	}
 	// (2) a file rendered from a host of the same format = the file on its own
@@ -147,6 +159,9 @@ func init() {
 			conv := c.Rng.Intn(8) != 0
 			sets := []*fileSet{fs}
 			for _, v := range variants(c, fs) {
+				if v.noModel {
+					continue
+				}
 				sets = append(sets, v.fs)
 				if v.against != fs {
 					sets = append(sets, v.against)
@@ -182,13 +197,13 @@ func init() {
 			}
 			conv := true
 			for _, v := range variants(c, fs) {
-				compareSets(c, v.law, v.fs, v.against, conv)
+				compareSets(c, v.law, v.fs, v.against, conv, v.knownSig)
 			}
 		}
 	})
 }
 
-func compareSets(c *Ctx, law string, a, b *fileSet, conv bool) {
+func compareSets(c *Ctx, law string, a, b *fileSet, conv bool, knownSig string) {
 	ta, ma := a.build(conv)
 	tb, mb := b.build(conv)
 	c.Count("evaluations")
@@ -222,6 +237,11 @@ func compareSets(c *Ctx, law string, a, b *fileSet, conv bool) {
 		d := det()
 		d["expansion_out"] = Hx(outputOf(ra)) + " " + ra.res
 		d["original_out"] = Hx(outputOf(rb)) + " " + rb.res
+		if knownSig != "" {
+			d["known"] = knownSig
+			c.Fail(knownSig, d)
+			return
+		}
 		c.Fail(law, d)
 		return
 	}
@@ -260,29 +280,36 @@ func replayC16(c *Ctx, in map[string]any) {
 		return
 	}
 	if ra.res != rb.res || outputOf(ra) != outputOf(rb) {
-		c.Fail(law, map[string]any{"law": law, "expansion": a, "original": b, "expansion_main": am, "original_main": bm, "conv": conv,
+		sig := law
+		if k, ok := in["known"].(string); ok && k != "" {
+			sig = k
+		}
+		c.Fail(sig, map[string]any{"law": law, "known": in["known"], "expansion": a, "original": b, "expansion_main": am, "original_main": bm, "conv": conv,
 			"expansion_out": Hx(outputOf(ra)) + " " + ra.res, "original_out": Hx(outputOf(rb)) + " " + rb.res})
 	}
 }
 
 func fixedC16(c *Ctx) {
 	type pair struct {
-		law  string
-		a, b map[string]string
+		law   string
+		a, b  map[string]string
+		known string
 	}
 	part := map[string]string{"x.txt": "<b>{{ v0 }}", "x.css": `a{b:"{{ v0 }}"}`, "x.js": `var a="{{ v0 }}";`, "x.md": "*b*{{ v5 }}", "x.html": "<i>{{ v0 }}</i>"}
+	hostFmt := map[string]int{"index.html": fHTML, "index.txt": fText, "index.md": fMarkdown, "index.js": fJS, "index.css": fCSS, "index.json": fJSON}
+	partFmt := map[string]int{"x.txt": fText, "x.css": fCSS, "x.js": fJS, "x.md": fMarkdown, "x.html": fHTML}
 	var ps []pair
 	for _, host := range []string{"index.html", "index.txt", "index.md", "index.js", "index.css", "index.json"} {
-		for p := range part {
+		for _, p := range []string{"x.txt", "x.css", "x.js", "x.md", "x.html"} {
 			a := map[string]string{host: fmt.Sprintf(`[{{ render %q }}]`, p), p: part[p]}
 			b := map[string]string{host: fmt.Sprintf(`{%% var v = render %q %%}[{{ v }}]`, p), p: part[p]}
-			ps = append(ps, pair{"render_equals_show_of_value", a, b})
+			known := ""
+			if hf, pf := hostFmt[host], partFmt[p]; !(hf == pf || (pf == fMarkdown && hf == fHTML)) {
+				known = "render-fastpath-format"
+			}
+			ps = append(ps, pair{"render_equals_show_of_value", a, b, known})
 		}
 	}
-	// a file rendered inside a URL attribute must not change how it renders elsewhere (repaired)
-	ps = append(ps, pair{"render_equals_show_of_value",
-		map[string]string{"index.html": `<a href="{{ render "x.html" }}">[{{ render "x.html" }}]`, "x.html": part["x.html"]},
-		map[string]string{"index.html": `{% var u = render "x.html" %}<a href="{{ u }}">{% var v = render "x.html" %}[{{ v }}]`, "x.html": part["x.html"]}})
 	for _, p := range ps {
 		var am string
 		for k := range p.a {
@@ -298,11 +325,28 @@ func fixedC16(c *Ctx) {
 			continue
 		}
 		if ra.res != rb.res || outputOf(ra) != outputOf(rb) {
-			c.Fail(p.law, map[string]any{"law": p.law, "expansion": p.a, "original": p.b, "expansion_main": am, "original_main": am, "conv": true,
+			sig := p.law
+			if p.known != "" {
+				sig = p.known
+			}
+			c.Fail(sig, map[string]any{"law": p.law, "known": p.known, "expansion": p.a, "original": p.b, "expansion_main": am, "original_main": am, "conv": true,
 				"expansion_out": Hx(outputOf(ra)) + " " + ra.res, "original_out": Hx(outputOf(rb)) + " " + rb.res})
 			continue
 		}
 		c.Count("nontrivial")
+	}
+	// a file rendered inside a URL attribute must not change how it renders elsewhere (repaired:
+	// the URL flags of the emitter leaked into the functions of the rendered file)
+	{
+		files := map[string]string{"index.html": `<a href="{{ render "x.html" }}">[{{ render "x.html" }}]`, "x.html": part["x.html"]}
+		alone := map[string]string{"index.html": `[{{ render "x.html" }}]`, "x.html": part["x.html"]}
+		ra, ea := runSources(files, "index.html", true)
+		rb, eb := runSources(alone, "index.html", true)
+		c.Count("evaluations")
+		if ea != "" || eb != "" || !strings.HasSuffix(outputOf(ra), outputOf(rb)) {
+			c.Fail("render-url-flags-leak", map[string]any{"law": "render_equals_standalone", "expansion": files, "original": alone,
+				"expansion_out": Hx(outputOf(ra)), "original_out": Hx(outputOf(rb)), "build": ea + eb})
+		}
 	}
 	// the recorded finding: a macro with a deferred call taken as a value
 	a := map[string]string{"index.html": `{% macro M %}{% defer func() { }() %}abc{% end %}[{{ M() }}]`}
